@@ -17,7 +17,8 @@ EXPLANATION = (
     "so every RecordRef::new_unchecked consumer sees a validated buffer; (R6) dec∘enc = id exhaustively for the CIGAR "
     "kind, aux type and array subtype tables (match-arm tables from type-checked HIR), missing-value sentinels agree; "
     "(R7) reg2bin geometry constants (shifts 14..26 step 3, offsets ((1<<k)-1)/7) and UNMAPPED_BIN = 4680."
-    " (R8) reused destination: every entry->Ok path of the eager decoder overwrites or clears each of the twelve RecordBuf columns (whole-object store, clear, or a callee that definitely resets its parameter), so a record decoded into a reused buffer carries nothing of the previous one.")
+    " (R8) reused destination: every entry->Ok path of the eager decoder overwrites or clears each of the twelve RecordBuf columns (whole-object store, clear, or a callee that definitely resets its parameter), so a record decoded into a reused buffer carries nothing of the previous one."
+    " (R9) record framing on the read path: the block_size prefix loop advances (never overwrites) its cursor and returns Ok only when nothing or everything was read.")
 ASSUMPTIONS = ["interval reasoning is dominance-based, not path-sensitive; what it cannot prove is tabled with a reason",
                "match tables are read from type-checked HIR patterns; values computed by arithmetic are out of reach"]
 NOT_DECIDED = ["whole-record equality over all field values", "aux value range boundaries, 4-bit base packing for odd lengths (unit-test territory)",
@@ -152,6 +153,14 @@ def run(ctx):
     R.reused_buffer_rule(ctx, "C05.R8", "noodles_bam::record::codec::decoder::decode", "record_buf::RecordBuf::",
                          ["reference_sequence_id_mut", "alignment_start_mut", "mapping_quality_mut", "flags_mut", "mate_reference_sequence_id_mut",
                           "mate_alignment_start_mut", "template_length_mut", "name_mut", "cigar_mut", "sequence_mut", "quality_scores_mut", "data_mut"])
+
+    ctx.rule("C05.R9", "A5e record framing on the read path: the 4-byte block_size prefix is read by a loop that advances its cursor and returns Ok "
+                       "only when nothing or everything was read (shared with C12.R4 / C13.R1)")
+    from . import c12
+    for key in ("noodles_bam::io::reader::record::read_exact_or_eof", "noodles_bam::r#async::io::reader::record::read_exact_or_eof"):
+        f9 = ctx.body("C05.R9", key)
+        if f9 is not None:
+            c12.eof_or_partial(ctx, "C05.R9", f9, allow_zero=True)
 
     ctx.rule("C05.R6", "A7 dec∘enc = id exhaustively for CIGAR kind / aux type / array subtype tables; sentinels agree")
     a7.table_agreement(ctx, "C05.R6", {"noodles_bam"}, 3)
